@@ -899,3 +899,345 @@ Proof.
   destruct (if has idx (h_edge (ts d)) then dwarn1 d else _) as [[d1 o1] w1]. unfold dst_of in I'. cbn [fst] in I'.
   destruct o1 as [|x]; [|reflexivity]. rewrite (IH d1 I'). reflexivity.
 Qed.
+
+(* ---------- remove_node(n, strong, remove_empty) ---------- *)
+Lemma dexec_bindnoderef k body en d :
+  dexec (DBindNodeRef k body) en d =
+  match get (dveval k en) (h_node (ts d)) with
+  | None => (d, Raised IDNotFound)
+  | Some outs => dexec_list body (dwith_local en (getl (dveval k en) (h_node (hs d)), outs)) d
+  end.
+Proof. cbn [dexec]. destruct (get (dveval k en) (h_node (ts d))); [cbv zeta; apply go_is_list|reflexivity]. Qed.
+Lemma dexec_forlocalminus sd v body en d :
+  dexec (DForLocalMinus sd v body) en d =
+  diter body en (sremove (dveval v en) (match sd with SdIn => fst (de_local en) | SdOut => snd (de_local en) end)) d.
+Proof. cbn [dexec]. apply it_is_diter. Qed.
+Lemma dexec_forlocalunion body en d :
+  dexec (DForLocalUnion body) en d = diter body en (sunion (fst (de_local en)) (snd (de_local en))) d.
+Proof. cbn [dexec]. apply it_is_diter. Qed.
+
+(* which half of the state holds self._edge[.][sd] *)
+Definition ehalf (sd : side) (d : dhg) : hg := if tail_side TEdge sd then ts d else hs d.
+Definition on_ehalf (sd : side) (f : hg -> hg) (d : dhg) : dhg :=
+  if tail_side TEdge sd then mkD (f (ts d)) (hs d) else mkD (ts d) (f (hs d)).
+
+(* the weak branch: remove n from the listed edges on one side *)
+Lemma diter_edge_remove_ok n sd k en : (forall x, dveval k (dwith_loop en x) = n) -> forall xs d, NoDup xs ->
+  (forall e, In e xs -> has e (h_edge (ts d)) = true /\ exists m, get e (h_edge (ehalf sd d)) = Some m /\ mem n m = true) ->
+  diter [DRemove TEdge VLoop (SConst sd) k] en xs d = (on_ehalf sd (fun s => fold_left (fun s e => edge_rem e n s) xs s) d, Ok).
+Proof.
+  intro Hk. induction xs as [|x xs IH]; intros d ND H; [destruct d, sd; reflexivity|]. cbn [diter].
+  inversion ND as [|? ? Hx ND']; subst. destruct (H x (or_introl eq_refl)) as (Hh & m & Gm & Mn).
+  rewrite dexec_list_cons, dexec_remove. rewrite Hk. cbn [dveval dwith_loop de_loop seval tab]. rewrite Hh.
+  assert (Eg : getl x (dtab TEdge sd d) = m) by (unfold getl, dtab, ehalf in *; destruct sd; cbn [tail_side tab] in *; rewrite Gm; reflexivity).
+  rewrite Eg, Mn, dexec_list_nil.
+  assert (E : set_dtab TEdge sd d (set x (sremove n m) (dtab TEdge sd d)) = on_ehalf sd (edge_rem x n) d).
+  { unfold set_dtab, on_ehalf, dtab, ehalf in *. destruct sd; cbn [tail_side tab set_tab] in *; unfold edge_rem, has, getl; rewrite Gm; reflexivity. }
+  rewrite E. rewrite IH; [|exact ND'|].
+  - unfold on_ehalf. destruct sd; cbn [tail_side ts hs fold_left]; reflexivity.
+  - intros y Hy. destruct (H y (or_intror Hy)) as (Hhy & my & Gy & My).
+    assert (Nyx : y <> x) by (intro; subst; contradiction).
+    assert (Rem : forall s, has y (h_edge s) = true -> has y (h_edge (edge_rem x n s)) = true).
+    { intros s Hs. unfold edge_rem. destruct (has x (h_edge s)); [|exact Hs]. cbn [h_edge with_edge]. apply has_set_keep. exact Hs. }
+    assert (Get : forall s lz, get y (h_edge s) = Some lz -> get y (h_edge (edge_rem x n s)) = Some lz).
+    { intros s lz Gs. unfold edge_rem. destruct (has x (h_edge s)); [|exact Gs]. cbn [h_edge with_edge]. rewrite get_set_other by exact Nyx. exact Gs. }
+    unfold on_ehalf, ehalf in *. destruct sd; cbn [tail_side ts hs] in *.
+    + split; [apply Rem; exact Hhy|]. exists my. split; [apply Get; exact Gy|exact My].
+    + split; [exact Hhy|]. exists my. split; [apply Get; exact Gy|exact My].
+Qed.
+
+(* the last loop of the weak branch: delete the listed edges that are now empty on both sides *)
+Lemma diter_drop_empty_ok re en : nth 1 (de_flags en) false = re ->
+  forall xs d, NoDup xs -> (forall e, In e xs -> has e (h_edge (ts d)) = true /\ has e (h_eattr (ts d)) = true) ->
+  diter [DIf (DAnd (DEmpty VLoop TEdge (SConst SdIn)) (DAnd (DEmpty VLoop TEdge (SConst SdOut)) (DFlag 1)))
+           [DDel TEdge VLoop; DDelAttr TEdge VLoop] []] en xs d = (fold_left (d_drop_if_empty re) xs d, Ok).
+Proof.
+  intro Hre. induction xs as [|x xs IH]; intros d ND H; [reflexivity|]. cbn [diter fold_left].
+  apply NoDup_cons_iff in ND. destruct ND as [Hx ND']. destruct (H x (or_introl eq_refl)) as (Hh & Ha).
+  assert (Step : dexec_list [DIf (DAnd (DEmpty VLoop TEdge (SConst SdIn)) (DAnd (DEmpty VLoop TEdge (SConst SdOut)) (DFlag 1)))
+                               [DDel TEdge VLoop; DDelAttr TEdge VLoop] []] (dwith_loop en x) d = (d_drop_if_empty re d x, Ok)).
+  { rewrite dexec_list_cons, dexec_if. cbn [dbeval seval dveval dwith_loop de_loop de_flags tab dtab tail_side]. rewrite Hh, Hre.
+    unfold d_drop_if_empty, tail, head, is_nil. rewrite Hh.
+    destruct (getl x (h_edge (ts d))) as [|a1 r1]; cbn [andb]; [|rewrite !dexec_list_nil; reflexivity].
+    destruct (getl x (h_edge (hs d))) as [|a2 r2]; cbn [andb]; [|rewrite !dexec_list_nil; reflexivity].
+    destruct re; cbn [andb]; [|rewrite !dexec_list_nil; reflexivity].
+    rewrite dexec_list_cons, dexec_del. cbn [dveval dwith_loop de_loop tab]. rewrite Hh.
+    rewrite dexec_list_cons, dexec_delattr. cbn [dveval dwith_loop de_loop atab set_tab ts hs h_eattr with_edge]. rewrite Ha.
+    rewrite !dexec_list_nil. reflexivity. }
+  rewrite Step. apply IH; [exact ND'|].
+  intros y Hy. destruct (H y (or_intror Hy)) as (Hhy & Hay). assert (Nyx : y <> x) by (intro; subst; contradiction).
+  unfold d_drop_if_empty. destruct (is_nil (tail d x) && is_nil (head d x) && re && has x (h_edge (ts d))); [|split; assumption].
+  unfold both, drop_edge, has. cbn [ts h_edge h_eattr with_edge with_eattr]. rewrite !get_del_other by exact Nyx. split; assumption.
+Qed.
+
+(* --- the strong branch: deleting the node first and skipping it afterwards (the code) is the same as unlinking the edges
+       completely and deleting the node last (the model) - an identity on the tables, no invariant needed --- *)
+Lemma del_set_other {V} k x (v : V) d : x <> k -> del k (set x v d) = set x v (del k d).
+Proof.
+  intro N. induction d as [|[k' v'] r IH]; cbn [set del].
+  - destruct (lbl_eqb_spec k x) as [E|_]; [exfalso; apply N; symmetry; exact E|reflexivity].
+  - destruct (lbl_eqb_spec x k') as [->|Nx]; cbn [del].
+    + destruct (lbl_eqb_spec k k') as [E|_]; [exfalso; apply N; symmetry; exact E|]. cbn [set]. rewrite lbl_eqb_refl. reflexivity.
+    + destruct (lbl_eqb_spec k k') as [->|Nk]; [exact IH|]. cbn [set]. destruct (lbl_eqb_spec x k'); [contradiction|]. rewrite IH. reflexivity.
+Qed.
+Lemma del_set_same {V} k (v : V) d : del k (set k v d) = del k d.
+Proof.
+  induction d as [|[k' v'] r IH]; cbn [set del]; [rewrite lbl_eqb_refl; reflexivity|].
+  destruct (lbl_eqb_spec k k') as [->|N]; cbn [del]; [rewrite lbl_eqb_refl; reflexivity|].
+  destruct (lbl_eqb_spec k k'); [contradiction|]. rewrite IH. reflexivity.
+Qed.
+
+Lemma drop_node_node_rem_same n e s : drop_node n (node_rem n e s) = drop_node n s.
+Proof.
+  unfold node_rem. destruct (has n (h_node s)); [|reflexivity]. unfold drop_node. cbn [h_node h_nattr with_node]. rewrite del_set_same. reflexivity.
+Qed.
+Lemma drop_node_node_rem_other n x e s : x <> n -> drop_node n (node_rem x e s) = node_rem x e (drop_node n s).
+Proof.
+  intro N. unfold node_rem, drop_node. cbn [h_node h_nattr with_node with_nattr].
+  assert (Hh : has x (del n (h_node s)) = has x (h_node s)) by (unfold has; rewrite get_del_other by exact N; reflexivity).
+  assert (Hg : getl x (del n (h_node s)) = getl x (h_node s)) by (unfold getl; rewrite get_del_other by exact N; reflexivity).
+  rewrite Hh, Hg. destruct (has x (h_node s)); [|reflexivity]. cbn [h_node h_nattr with_node with_nattr]. rewrite del_set_other by exact N. reflexivity.
+Qed.
+Lemma drop_node_fold_node_rem n e : forall ms s,
+  drop_node n (fold_left (fun s x => node_rem x e s) ms s) = fold_left (fun s x => node_rem x e s) (sremove n ms) (drop_node n s).
+Proof.
+  induction ms as [|x ms IH]; intro s; [reflexivity|]. cbn [fold_left sremove]. rewrite IH.
+  destruct (lbl_eqb_spec n x) as [<-|N].
+  - rewrite drop_node_node_rem_same. reflexivity.
+  - cbn [fold_left]. rewrite drop_node_node_rem_other by (intro X; apply N; symmetry; exact X). reflexivity.
+Qed.
+Lemma node_rem_drop_edge x e' e s : node_rem x e' (drop_edge e s) = drop_edge e (node_rem x e' s).
+Proof. unfold node_rem, drop_edge. cbn [h_node with_edge with_eattr]. destruct (has x (h_node s)); reflexivity. Qed.
+Lemma fold_node_rem_drop_edge e' e : forall ms s,
+  fold_left (fun s x => node_rem x e' s) ms (drop_edge e s) = drop_edge e (fold_left (fun s x => node_rem x e' s) ms s).
+Proof. induction ms as [|x ms IH]; intro s; [reflexivity|]. cbn [fold_left]. rewrite node_rem_drop_edge. apply IH. Qed.
+
+(* one edge, as the code treats it once the node is gone *)
+Definition stepB (n e : lbl) (s : hg) : hg :=
+  match get e (h_edge s) with
+  | None => s
+  | Some ms => fold_left (fun s x => node_rem x e s) (sremove n ms) (drop_edge e s)
+  end.
+Lemma drop_node_remove_edge1 n e s : drop_node n (st_of (remove_edge1 e s)) = stepB n e (drop_node n s).
+Proof.
+  unfold remove_edge1, stepB. change (h_edge (drop_node n s)) with (h_edge s).
+  destruct (get e (h_edge s)) as [ms|]; [|reflexivity]. unfold st_of, ok. cbn [fst].
+  rewrite fold_node_rem_drop_edge. rewrite <- drop_node_fold_node_rem. reflexivity.
+Qed.
+Lemma drop_node_fold_remove n : forall es s,
+  drop_node n (fold_left (fun s e => st_of (remove_edge1 e s)) es s) = fold_left (fun s e => stepB n e s) es (drop_node n s).
+Proof. induction es as [|e es IH]; intro s; [reflexivity|]. cbn [fold_left]. rewrite IH, drop_node_remove_edge1. reflexivity. Qed.
+Lemma fold_remove_raw_pair : forall es d,
+  fold_left (fun d e => d_remove_edge_raw e d) es d =
+  mkD (fold_left (fun s e => st_of (remove_edge1 e s)) es (ts d)) (fold_left (fun s e => st_of (remove_edge1 e s)) es (hs d)).
+Proof. induction es as [|e es IH]; intro d; [destruct d; reflexivity|]. cbn [fold_left]. rewrite IH. reflexivity. Qed.
+
+(* what the strong loop needs of the edges still to be processed *)
+Definition StrongD (n : lbl) (d : dhg) (es : list lbl) : Prop :=
+  forall e, In e es -> exists tl hd,
+    get e (h_edge (ts d)) = Some tl /\ get e (h_edge (hs d)) = Some hd /\ has e (h_eattr (ts d)) = true /\ NoDup tl /\ NoDup hd /\
+    (forall x, In x tl -> x <> n -> has x (h_node (ts d)) = true /\ exists l, get x (h_node (ts d)) = Some l /\ mem e l = true) /\
+    (forall x, In x hd -> x <> n -> has x (h_node (ts d)) = true /\ exists l, get x (h_node (hs d)) = Some l /\ mem e l = true).
+
+Lemma stepB_h_edge n e s : h_edge (stepB n e s) = match get e (h_edge s) with None => h_edge s | Some _ => del e (h_edge s) end.
+Proof.
+  unfold stepB. destruct (get e (h_edge s)) as [ms|]; [|reflexivity].
+  destruct (fold_node_rem_tables e (sremove n ms) (drop_edge e s)) as [A _]. rewrite A. reflexivity.
+Qed.
+Lemma stepB_h_eattr n e s : h_eattr (stepB n e s) = match get e (h_edge s) with None => h_eattr s | Some _ => del e (h_eattr s) end.
+Proof.
+  unfold stepB. destruct (get e (h_edge s)) as [ms|]; [|reflexivity].
+  destruct (fold_node_rem_tables e (sremove n ms) (drop_edge e s)) as [_ B]. rewrite B. reflexivity.
+Qed.
+Lemma fold_node_rem_keeps e e' x : e' <> e -> forall ys t,
+  (exists l0, get x (h_node t) = Some l0 /\ mem e' l0 = true) ->
+  exists l0, get x (h_node (fold_left (fun s m0 => node_rem m0 e s) ys t)) = Some l0 /\ mem e' l0 = true.
+Proof.
+  intro Ne. induction ys as [|y ys IHy]; intros t Ht; [exact Ht|]. cbn [fold_left]. apply IHy.
+  destruct Ht as (l0 & G0 & M0). unfold node_rem. destruct (has y (h_node t)) eqn:Hy; [|exists l0; auto]. cbn [h_node with_node].
+  destruct (lbl_eqb_spec x y) as [->|Nxy].
+  - rewrite get_set_same. exists (sremove e (getl y (h_node t))). split; [reflexivity|].
+    unfold getl. rewrite G0. apply mem_In. apply In_sremove. split; [exact Ne|apply mem_In; exact M0].
+  - rewrite get_set_other by exact Nxy. exists l0. auto.
+Qed.
+Lemma stepB_node_keeps n e e' x s : e' <> e ->
+  (exists l0, get x (h_node s) = Some l0 /\ mem e' l0 = true) -> exists l0, get x (h_node (stepB n e s)) = Some l0 /\ mem e' l0 = true.
+Proof.
+  intros Ne H. unfold stepB. destruct (get e (h_edge s)) as [ms|]; [|exact H].
+  apply fold_node_rem_keeps; [exact Ne|]. exact H.
+Qed.
+Lemma stepB_has_node n e y s : has y (h_node s) = true -> has y (h_node (stepB n e s)) = true.
+Proof. intro H. unfold stepB. destruct (get e (h_edge s)) as [ms|]; [|exact H]. apply fold_node_rem_has. exact H. Qed.
+
+Definition strong_body : list dstmt :=
+  [DBindEdgeCopy VLoop [DDel TEdge VLoop; DDelAttr TEdge VLoop;
+                        DForLocalMinus SdIn (VArg 0) [DRemove TNode VLoop (SConst SdOut) VLoop1];
+                        DForLocalMinus SdOut (VArg 0) [DRemove TNode VLoop (SConst SdIn) VLoop1]]].
+
+Lemma strong_dloop_ok n en : (forall e p x, dveval VLoop1 (dwith_loop (dwith_local (dwith_loop en e) p) x) = e) ->
+  (forall e p, dveval (VArg 0) (dwith_local (dwith_loop en e) p) = n) ->
+  forall es d, NoDup es -> StrongD n d es ->
+  diter strong_body en es d = (mkD (fold_left (fun s e => stepB n e s) es (ts d)) (fold_left (fun s e => stepB n e s) es (hs d)), Ok).
+Proof.
+  intros V1 V0. induction es as [|e es IH]; intros d ND Q; [destruct d; reflexivity|]. cbn [diter fold_left].
+  apply NoDup_cons_iff in ND. destruct ND as [He ND'].
+  destruct (Q e (or_introl eq_refl)) as (tl & hd & Gt & Gh & Ha & NDt & NDh & Ht & Hh).
+  assert (Step : dexec_list strong_body (dwith_loop en e) d = (mkD (stepB n e (ts d)) (stepB n e (hs d)), Ok)).
+  { unfold strong_body. rewrite dexec_list_cons, dexec_bindcopy. cbn [dveval dwith_loop de_loop]. rewrite Gt.
+    assert (Eh : getl e (h_edge (hs d)) = hd) by (unfold getl; rewrite Gh; reflexivity). rewrite Eh.
+    set (en1 := dwith_local (dwith_loop en e) (tl, hd)).
+    assert (Ve : dveval VLoop en1 = e) by reflexivity.
+    rewrite dexec_list_cons, dexec_del, Ve. cbn [tab].
+    assert (Hht : has e (h_edge (ts d)) = true) by (unfold has; rewrite Gt; reflexivity). rewrite Hht. cbn [set_tab].
+    rewrite dexec_list_cons, dexec_delattr, Ve. cbn [atab set_atab ts hs h_eattr with_edge]. rewrite Ha.
+    set (d1 := mkD (drop_edge e (ts d)) (drop_edge e (hs d))).
+    change (mkD (with_eattr (with_edge (ts d) (del e (h_edge (ts d)))) (del e (h_eattr (ts d))))
+                (with_eattr (with_edge (hs d) (del e (h_edge (hs d)))) (del e (h_eattr (hs d))))) with d1.
+    rewrite dexec_list_cons, dexec_forlocalminus. unfold en1 at 2 3. cbn [dwith_local de_local fst]. rewrite (V0 e (tl, hd)).
+    rewrite (diter_remove_ok e SdOut VLoop1 en1 (V1 e (tl, hd)) (sremove n tl) d1).
+    2:{ apply NoDup_sremove. exact NDt. }
+    2:{ intros x Hx. apply In_sremove in Hx. destruct Hx as [Nx Hx]. destruct (Ht x Hx Nx) as (Hhx & l & Gl & Ml).
+        split; [exact Hhx|]. exists l. split; [exact Gl|exact Ml]. }
+    unfold on_half. cbn [tail_side ts hs d1].
+    set (t1 := fold_left (fun s x => node_rem x e s) (sremove n tl) (drop_edge e (ts d))).
+    rewrite dexec_list_cons, dexec_forlocalminus. unfold en1 at 2 3. cbn [dwith_local de_local snd]. rewrite (V0 e (tl, hd)).
+    rewrite (diter_remove_ok e SdIn VLoop1 en1 (V1 e (tl, hd)) (sremove n hd) (mkD t1 (drop_edge e (hs d)))).
+    2:{ apply NoDup_sremove. exact NDh. }
+    2:{ intros x Hx. apply In_sremove in Hx. destruct Hx as [Nx Hx]. destruct (Hh x Hx Nx) as (Hhx & l & Gl & Ml).
+        split; [cbn [ts]; unfold t1; apply fold_node_rem_has; exact Hhx|]. exists l. split; [exact Gl|exact Ml]. }
+    unfold on_half. cbn [tail_side ts hs]. rewrite !dexec_list_nil.
+    unfold stepB. rewrite Gt, Gh. reflexivity. }
+  rewrite Step. rewrite IH; [reflexivity|exact ND'|].
+  (* the invariant for the remaining edges *)
+  intros e' He'. assert (Ne : e' <> e) by (intro; subst; contradiction).
+  destruct (Q e' (or_intror He')) as (tl' & hd' & Gt' & Gh' & Ha' & NDt' & NDh' & Ht' & Hh').
+  exists tl', hd'. cbn [ts hs].
+  split; [rewrite stepB_h_edge, Gt; rewrite get_del_other by exact Ne; exact Gt'|].
+  split; [rewrite stepB_h_edge, Gh; rewrite get_del_other by exact Ne; exact Gh'|].
+  split; [rewrite stepB_h_eattr, Gt; unfold has; rewrite get_del_other by exact Ne; exact Ha'|].
+  split; [exact NDt'|]. split; [exact NDh'|]. split.
+  - intros x Hx Nx. destruct (Ht' x Hx Nx) as (Hhx & l & Gl & Ml). split; [apply stepB_has_node; exact Hhx|].
+    apply stepB_node_keeps; [exact Ne|]. exists l. split; assumption.
+  - intros x Hx Nx. destruct (Hh' x Hx Nx) as (Hhx & l & Gl & Ml). split; [apply stepB_has_node; exact Hhx|].
+    apply stepB_node_keeps; [exact Ne|]. exists l. split; assumption.
+Qed.
+
+(* weak removal on one side, with remove_empty off, is: delete the node, take it out of its edges *)
+Lemma weak_fold_plain n : forall es s0,
+  fold_left (fun s e => let s' := edge_rem e n s in
+                        if (match getl e (h_edge s') with [] => true | _ => false end) && false && has e (h_edge s')
+                        then drop_edge e s' else s') es s0 =
+  fold_left (fun s e => edge_rem e n s) es s0.
+Proof.
+  induction es as [|e es IH]; intro s0; [reflexivity|]. cbn [fold_left]. cbv zeta. rewrite andb_false_r. cbn [andb]. apply IH.
+Qed.
+Lemma remove_node_weak_plain n es s : get n (h_node s) = Some es ->
+  st_of (remove_node n false false s) = fold_left (fun s e => edge_rem e n s) es (drop_node n s).
+Proof. intro G. unfold remove_node. rewrite G. unfold st_of, ok. cbn [fst]. apply weak_fold_plain. Qed.
+
+Theorem d_remove_node_is_source n strong re d : DInv d ->
+  run_dmethod dsrc_remove_node [n] [strong; re] DirInvalid [] [] d = d_remove_node n strong re d.
+Proof.
+  intros (I1 & I2 & Ag). unfold run_dmethod, dsrc_remove_node, d_remove_node.
+  set (en := mkDEnv [n] [strong; re] DirInvalid [] [] LNone LNone SdIn SdOut ([], []) dext0).
+  rewrite dexec_list_cons, dexec_bindnoderef. change (dveval (VArg 0) en) with n.
+  destruct (get n (h_node (ts d))) as [outs|] eqn:Gn; [|reflexivity].
+  assert (Hn : has n (h_node (ts d)) = true) by (unfold has; rewrite Gn; reflexivity).
+  pose proof (agree_has_node d n Ag) as Hn2. rewrite Hn in Hn2. unfold has in Hn2.
+  destruct (get n (h_node (hs d))) as [ins|] eqn:Gn2; [|discriminate Hn2].
+  assert (Eins : getl n (h_node (hs d)) = ins) by (unfold getl; rewrite Gn2; reflexivity). rewrite Eins.
+  assert (Eim : in_mships d n = ins) by (unfold in_mships; exact Eins). rewrite Eim.
+  set (en1 := dwith_local en (ins, outs)).
+  destruct I1 as (W1a & (Kna1 & Kea1 & _ & _) & (Vn1 & Vm1) & _). destruct I2 as (W2a & (Kna2 & Kea2 & _ & _) & (Vn2 & Vm2) & _).
+  (* del self._node[n]; del self._node_attr[n] *)
+  rewrite dexec_list_cons, dexec_del. change (dveval (VArg 0) en1) with n. cbn [tab]. rewrite Hn. cbn [set_tab].
+  rewrite dexec_list_cons, dexec_delattr. change (dveval (VArg 0) en1) with n. cbn [atab set_atab ts hs h_nattr with_node].
+  assert (Hna : has n (h_nattr (ts d)) = true) by (apply has_In; rewrite Kna1; apply has_In; exact Hn). rewrite Hna.
+  set (d0 := both (drop_node n) d).
+  change (mkD (with_nattr (with_node (ts d) (del n (h_node (ts d)))) (del n (h_nattr (ts d))))
+              (with_nattr (with_node (hs d) (del n (h_node (hs d)))) (del n (h_nattr (hs d))))) with d0.
+  (* facts about the incident edges *)
+  assert (NDo : NoDup outs) by (pose proof (Vn1 n) as V; unfold mships, getl in V; rewrite Gn in V; exact V).
+  assert (NDi : NoDup ins) by (pose proof (Vn2 n) as V; unfold mships, getl in V; rewrite Gn2 in V; exact V).
+  assert (NDu : NoDup (sunion ins outs)) by (apply NoDup_sunion; exact NDi).
+  assert (OutE : forall e, In e outs -> exists m, get e (h_edge (ts d)) = Some m /\ In n m).
+  { intros e He. assert (Hi : In n (mems (ts d) e)) by (apply W1a; unfold mships, getl; rewrite Gn; exact He).
+    unfold mems, getl in Hi. destruct (get e (h_edge (ts d))) as [m|]; [|destruct Hi]. exists m. split; [reflexivity|exact Hi]. }
+  assert (InE : forall e, In e ins -> exists m, get e (h_edge (hs d)) = Some m /\ In n m).
+  { intros e He. assert (Hi : In n (mems (hs d) e)) by (apply W2a; unfold mships, getl; rewrite Gn2; exact He).
+    unfold mems, getl in Hi. destruct (get e (h_edge (hs d))) as [m|]; [|destruct Hi]. exists m. split; [reflexivity|exact Hi]. }
+  assert (UE : forall e, In e (sunion ins outs) -> has e (h_edge (ts d)) = true).
+  { intros e He. apply In_sunion in He. destruct He as [He|He].
+    - destruct (InE e He) as (m & Gm & _). rewrite <- (agree_has_edge d e Ag). unfold has. rewrite Gm. reflexivity.
+    - destruct (OutE e He) as (m & Gm & _). unfold has. rewrite Gm. reflexivity. }
+  rewrite dexec_list_cons, dexec_if. cbn [dbeval]. change (nth 0 (de_flags en1) false) with strong. destruct strong.
+  - (* strong *)
+    rewrite dexec_list_cons, dexec_forlocalunion. change (de_local en1) with (ins, outs). cbn [fst snd].
+    change (diter _ en1 (sunion ins outs) d0) with (diter strong_body en1 (sunion ins outs) d0).
+    rewrite (strong_dloop_ok n en1 (fun e p x => eq_refl) (fun e p => eq_refl) (sunion ins outs) d0 NDu).
+    + rewrite !dexec_list_nil. unfold dok. f_equal. f_equal. rewrite fold_remove_raw_pair. unfold both, d0. cbn [ts hs].
+      rewrite !drop_node_fold_remove. reflexivity.
+    + (* the invariant at the start *)
+      intros e He. pose proof (UE e He) as Hte. unfold has in Hte.
+      destruct (get e (h_edge (ts d))) as [tl|] eqn:Gt; [|discriminate Hte].
+      pose proof (agree_has_edge d e Ag) as Hhe. unfold has in Hhe. rewrite Gt in Hhe.
+      destruct (get e (h_edge (hs d))) as [hd|] eqn:Gh; [|discriminate Hhe].
+      exists tl, hd. unfold d0, both. cbn [ts hs h_edge h_eattr h_node drop_node with_node with_nattr].
+      split; [exact Gt|]. split; [exact Gh|].
+      split; [apply has_In; rewrite Kea1; apply (get_Some_In e (h_edge (ts d)) tl Gt)|].
+      split; [pose proof (Vm1 e) as V; unfold mems, getl in V; rewrite Gt in V; exact V|].
+      split; [pose proof (Vm2 e) as V; unfold mems, getl in V; rewrite Gh in V; exact V|]. split.
+      * intros x Hx Nx. assert (Hi : In e (mships (ts d) x)) by (apply W1a; unfold mems, getl; rewrite Gt; exact Hx).
+        unfold mships, getl in Hi. destruct (get x (h_node (ts d))) as [l|] eqn:Gx; [|destruct Hi].
+        split; [unfold has; rewrite get_del_other by exact Nx; rewrite Gx; reflexivity|].
+        exists l. split; [rewrite get_del_other by exact Nx; exact Gx|apply mem_In; exact Hi].
+      * intros x Hx Nx. assert (Hi : In e (mships (hs d) x)) by (apply W2a; unfold mems, getl; rewrite Gh; exact Hx).
+        unfold mships, getl in Hi. destruct (get x (h_node (hs d))) as [l|] eqn:Gx; [|destruct Hi].
+        assert (Hxs : has x (h_node (ts d)) = true) by (rewrite <- (agree_has_node d x Ag); unfold has; rewrite Gx; reflexivity).
+        split; [unfold has in *; rewrite get_del_other by exact Nx; exact Hxs|].
+        exists l. split; [rewrite get_del_other by exact Nx; exact Gx|apply mem_In; exact Hi].
+  - (* weak *)
+    rewrite dexec_list_cons, dexec_forlocal. change (de_local en1) with (ins, outs). cbn [fst snd].
+    rewrite (diter_edge_remove_ok n SdOut (VArg 0) en1 (fun x => eq_refl) ins d0 NDi).
+    2:{ intros e He. split; [unfold d0, both; cbn [ts h_edge drop_node with_node with_nattr]; apply UE; apply In_sunion; left; exact He|].
+        destruct (InE e He) as (m & Gm & Hm). exists m. unfold ehalf, d0, both. cbn [tail_side hs h_edge drop_node with_node with_nattr].
+        split; [exact Gm|apply mem_In; exact Hm]. }
+    unfold on_ehalf. cbn [tail_side].
+    rewrite dexec_list_cons, dexec_forlocal. change (de_local en1) with (ins, outs). cbn [fst snd].
+    rewrite (diter_edge_remove_ok n SdIn (VArg 0) en1 (fun x => eq_refl) outs _ NDo).
+    2:{ intros e He. cbn [ts hs]. split; [unfold d0, both; cbn [ts h_edge drop_node with_node with_nattr]; apply UE; apply In_sunion; right; exact He|].
+        destruct (OutE e He) as (m & Gm & Hm). exists m. unfold ehalf, d0, both. cbn [tail_side ts h_edge drop_node with_node with_nattr].
+        split; [exact Gm|apply mem_In; exact Hm]. }
+    unfold on_ehalf. cbn [tail_side ts hs].
+    rewrite dexec_list_cons, dexec_forlocalunion. change (de_local en1) with (ins, outs). cbn [fst snd].
+    rewrite (diter_drop_empty_ok re en1 eq_refl (sunion ins outs) _ NDu).
+    2:{ intros e He. cbn [ts].
+        assert (Ke : forall xs s, h_eattr (fold_left (fun s e0 => edge_rem e0 n s) xs s) = h_eattr s).
+        { induction xs as [|y xs IHx]; intro s; [reflexivity|]. cbn [fold_left]. rewrite IHx. unfold edge_rem. destruct (has y (h_edge s)); reflexivity. }
+        assert (He2 : forall xs s, has e (h_edge s) = true -> has e (h_edge (fold_left (fun s e0 => edge_rem e0 n s) xs s)) = true).
+        { induction xs as [|y xs IHx]; intros s Hs; [exact Hs|]. cbn [fold_left]. apply IHx. unfold edge_rem.
+          destruct (has y (h_edge s)); [|exact Hs]. cbn [h_edge with_edge]. apply has_set_keep. exact Hs. }
+        split; [apply He2; unfold d0, both; cbn [ts h_edge drop_node with_node with_nattr]; apply UE; exact He|].
+        rewrite Ke. unfold d0, both. cbn [ts h_eattr drop_node with_node with_nattr].
+        apply has_In. rewrite Kea1. apply has_In. apply UE. exact He. }
+    rewrite !dexec_list_nil. unfold dok. f_equal. f_equal. f_equal.
+    rewrite (remove_node_weak_plain n outs (ts d) Gn), (remove_node_weak_plain n ins (hs d) Gn2). reflexivity.
+Qed.
+
+(* ---------- remove_nodes_from: the guard of the loop, then the translated remove_node ---------- *)
+Lemma dloop_ext_inv {A} (P : dhg -> Prop) (f g : dhg -> A -> dres) (l : list A) :
+  (forall d x, P d -> f d x = g d x) -> (forall d x, P d -> P (dst_of (g d x))) -> forall d, P d -> dloop f l d = dloop g l d.
+Proof.
+  intros Hfg Hinv. induction l as [|x l IH]; intros d0 I0; [reflexivity|]. cbn [dloop]. rewrite (Hfg d0 x I0).
+  pose proof (Hinv d0 x I0) as I1. destruct (g d0 x) as [[d1 o] w]. unfold dst_of in I1. cbn [fst] in I1.
+  destruct o; [rewrite (IH d1 I1)|]; reflexivity.
+Qed.
+
+Theorem d_remove_nodes_from_is_source strong re ns d : DInv d ->
+  run_dnode_items dsrc_remove_nodes_from_guards dsrc_remove_node ns [strong; re] d = d_remove_nodes_from ns strong re d.
+Proof.
+  unfold run_dnode_items, d_remove_nodes_from, dsrc_remove_nodes_from_guards. apply (dloop_ext_inv DInv).
+  - intros d1 n I. cbn [run_dguards dbeval dveval de_loop tab]. destruct (has n (h_node (ts d1))); cbn [negb]; [|reflexivity].
+    apply d_remove_node_is_source. exact I.
+  - intros d1 n I. destruct (has n (h_node (ts d1))); [apply DInv_remove_node; exact I|exact I].
+Qed.
